@@ -882,30 +882,11 @@ impl Value {
             InnerDecimalSchema::Bytes => (),
         };
         match self {
-            Value::Decimal(num) => {
-                let num_bytes = num.len();
-                if max_prec_for_len(num_bytes)? < precision {
-                    Err(Details::ComparePrecisionAndSize {
-                        precision,
-                        num_bytes,
-                    }
-                    .into())
-                } else {
-                    Ok(Value::Decimal(num))
-                }
-                // check num.bits() here
-            }
+            // The declared precision bounds the number of digits, not the number of bytes: the
+            // two's-complement encoding of a small number is short however large the precision is.
+            Value::Decimal(num) => Ok(Value::Decimal(num)),
             Value::Fixed(_, bytes) | Value::Bytes(bytes) => {
-                if max_prec_for_len(bytes.len())? < precision {
-                    Err(Details::ComparePrecisionAndSize {
-                        precision,
-                        num_bytes: bytes.len(),
-                    }
-                    .into())
-                } else {
-                    // precision and scale match, can we assume the underlying type can hold the data?
-                    Ok(Value::Decimal(Decimal::from(bytes)))
-                }
+                Ok(Value::Decimal(Decimal::from(bytes)))
             }
 
             // Per spec §Records, a decimal value can be encoded as a JSON string
